@@ -360,6 +360,9 @@ Hausdorffish(fine, jxy, tol) ==
         C2 == <<cx2, cy2>>
         Q2(i) == <<2 * Q(i)[1], 2 * Q(i)[2]>> IN
     /\ n >= 3 /\ rmax < 20000
+    \* only a polygon that IS a circle within the tolerances may come back with other vertices: the
+    \* original's own vertices lie in a thin annulus (a triangle or a trapezoid does not qualify)
+    /\ rmax - rmin <= T
     /\ \A i \in 1..n : Max(rmin - T, 0) * Max(rmin - T, 0) <= D2(Q(i)) /\ D2(Q(i)) <= (rmax + T) * (rmax + T)
     /\ (\A i \in 1..n : Cross(C2, Q2(i), Q2(i + 1)) > 0) \/ (\A i \in 1..n : Cross(C2, Q2(i), Q2(i + 1)) < 0)
 RefFails2(s, jr, j) == RefFails(s @@ [known |-> \E c \in DOMAIN j.cells : j.cells[c].name = s.cell], jr)
